@@ -222,6 +222,9 @@ pub struct Doc {
     /// declarations (the lexer skips trivia between any two tokens): 0 none, 1 `a. b`, 2 `a .b`,
     /// 3 `a./*x*/b`, 4 a line break after the dot
     pub dot_trivia: u8,
+    /// annotations and doc comments in the places the grammar allows but documents rarely use:
+    /// on forward declarations, on enum elements, doc comments on arguments
+    pub odd_places: bool,
 }
 
 fn render_doc_comment(doc: &Option<String>, out: &mut String, sep: &str) {
@@ -277,6 +280,9 @@ impl Doc {
             s.push_str(hsep);
         }
         for f in &self.fwd {
+            if self.odd_places {
+                s.push_str("@Hide @JavaOnlyStableParcelable(x=1) ");
+            }
             s.push_str("parcelable ");
             s.push_str(&dotted(f, self.dot_trivia));
             s.push(';');
@@ -333,6 +339,9 @@ impl Doc {
                     for (i, a) in args.iter().enumerate() {
                         if i > 0 {
                             s.push_str(", ");
+                        }
+                        if self.odd_places && i % 2 == 0 {
+                            s.push_str("/** the argument */ ");
                         }
                         if let Some(d) = &a.dir {
                             s.push_str(d);
@@ -394,6 +403,9 @@ impl Doc {
                 }
                 Member::EnumElem { name, value, doc } => {
                     render_doc_comment(doc, &mut s, msep);
+                    if self.odd_places {
+                        s.push_str("@Deprecated @Backing(type=\"int\") ");
+                    }
                     s.push_str(name);
                     if let Some(v) = value {
                         s.push_str(" = ");
@@ -448,6 +460,7 @@ impl Doc {
         push(&|d| d.crlf = false);
         push(&|d| d.tabs = false);
         push(&|d| d.dot_trivia = 0);
+        push(&|d| d.odd_places = false);
         push(&|d| d.col_pad = 0);
         push(&|d| d.line_pad = 0);
         push(&|d| d.col_pad /= 2);
@@ -1100,7 +1113,7 @@ pub fn gen_members(
                             // a reference to a constant of an imported item: Name.CONST
                             format!("{}.{}", rng.pick(imports).rsplit('.').next().unwrap(), rng.pick(&["LOW", "SERIAL", "E0"]))
                         } else {
-                            rng.pick(&["1", "\"s\"", "true", "1.5f", "{}", "{ 1, 2 }", "0x"]).to_string()
+                            rng.pick(&["1", "\"s\"", "true", "1.5f", "{}", "{ 1, 2 }", "0x", "-1", "+2", ".5", "-0.5f", "{ 1 2, 3, }", "\"\""]).to_string()
                         },
                         doc: gen_doc_comment(rng, k),
                     });
@@ -1180,6 +1193,8 @@ pub fn gen_members(
                     name: member_name(rng, k, format!("E{mi}")),
                     value: if rng.pct(50) {
                         Some(format!("{}", rng.below(9)))
+                    } else if rng.pct(10) {
+                        Some(rng.pick(&["\"s\"", "true", "-1", "1.5f", "4294967296"]).to_string())
                     } else {
                         None
                     },
@@ -1300,6 +1315,7 @@ pub fn gen_doc(
         tabs: rng.pct(k.p_block_comments / 2),
         // sizes around 2^8, 2^12 and 2^16: packed positions, narrow integer types
         col_pad: if rng.pct(k.p_heavy / 3 + 1) { *rng.pick(&[250usize, 260, 4090, 4200, 4200, 65530, 66000]) } else { 0 },
+        odd_places: rng.pct(k.p_annot / 3 + 2),
         dot_trivia: if rng.pct(k.p_block_comments / 2 + 2) { rng.range(1, 4) as u8 } else { 0 },
         line_pad: if rng.pct(k.p_heavy / 6 + 1) { *rng.pick(&[250usize, 260, 4090, 4200, 66000]) } else { 0 },
     }
